@@ -13,6 +13,12 @@ ENGINES = [
      "kind_free_text": "real Popen::create on the real kernel in trace mode: libc entry points interposed, calls of parent and forked "
                        "child logged via shared memory without allocating, k-th call of a kind made to fail, exec intercepted with a "
                        "snapshot of the child's table/signals/ids/allocations; the Lean model replays the same answers"},
+    {"name": "pipe", "path": "/verif/harness/src/pipe.rs + src/trace.rs + src/bin/hplain.rs (stage program) + /verif/checks/pipeline.py + /verif/lean/Model/Pipeline.lean",
+     "serves_properties": ["C12", "C13", "C14", "C08"],
+     "kind_free_text": "real Exec/Pipeline terminators with real scripted children (tagged line transforms, cat, unbounded writers, early "
+                       "exits, a missing program) in trace mode with real exec; the parent's pipe/fork/close/waitpid log is abstracted "
+                       "to the event summary the Lean model Pipe.run predicts (attachments, stray inheritable ends, holdings at every "
+                       "wait, final holdings); direct oracles on output, stderr multiset, status, leftovers, descriptor count, hang watchdog"},
     {"name": "builder", "path": "/verif/harness/src/builder.rs + src/trace.rs + /verif/checks/builder.py + /verif/lean/Model/Builder.lean",
      "serves_properties": ["C16"],
      "kind_free_text": "random and exhaustive-small builder call sequences on the real Exec (clone with decoy edits included), "
@@ -187,7 +193,8 @@ CLAIMED["C08"] = {
             "c08_parent_releases_child_ends, c08_child_closes_status_read; single spawning thread. On the real code the child's whole "
             "descriptor table at exec must contain nothing but 0,1,2 without close-on-exec, with 0 or 3 other live Popens.",
     "note": SPAWN_NOTE + " PARTIAL: spawns from several threads at once (pipe ends are inheritable between pipe() and fcntl(): defect F9b) "
-            "and the pipeline capture pipe (F9a) are not covered by this check yet.",
+            "is not covered. Pipelines (every terminator, lengths 2..7) are run by the pipe engine as part of this check: every "
+            "started command's descriptor table is inspected (Pipe.SpawnsClean / c13_nothing_else is the theorem).",
 }
 CLAIMED["C15"] = {
     "engine": "spawn", "design_ref": "DESIGN.md section 6, C15",
@@ -224,5 +231,43 @@ CLAIMED["C16"] = {
             "c16_data_refused; c16_late_refusal_iff. Clone independence is a property of Rust values and is checked by decoy edits "
             "after clone() in the differential run, not proved.",
     "note": COMMON_NOTE,
+}
+PIPE_NOTE = (COMMON_NOTE + " One Popen::create is atomic in this model (its inside is C05-C08's). The kernel's pipe semantics (EOF when "
+             "the last writer closes, EPIPE/SIGPIPE when the last reader closes, FIFO delivery) and the children are not modelled: "
+             "'no self-inflicted hang' is proved as 'the parent holds no pipe end of the attempt while it waits' and exercised "
+             "with real children under a watchdog.")
+CLAIMED["C12"] = {
+    "engine": "pipe", "design_ref": "DESIGN.md section 6, C12",
+    "technique": "Lean 4 proof (induction over the spawn loop and over the dropped Vec<Popen>; holdings as a function End -> Option Bool) "
+                 "+ trace conformance with real children and a hang watchdog",
+    "text": "c12_every_child_reaped_once (every non-detached command is waited for exactly once, for every terminator and length), "
+            "c12_detached_never_waited, c12_communicate_never_waits, c12_adapter_drop_holds_nothing (at every wait of an adapter's drop "
+            "the parent holds no pipe end at all: stream_stdout/stderr/stdin of a command, stream_stdout/stdin of pipelines of any "
+            "length), c12_popen_drop_holds_nothing. Real runs: unbounded writers to stdout/stderr, cat waiting for EOF, early exits, "
+            "200000-line producers, drop after 0/10/70000 bytes or everything read, detached or not; zombies via wait4 per child.",
+    "note": PIPE_NOTE,
+}
+CLAIMED["C13"] = {
+    "engine": "pipe", "design_ref": "DESIGN.md section 6, C13",
+    "technique": "Lean 4 proof (structural induction over composition expressions; induction over the spawn loop; data-flow fold) "
+                 "+ differential run of real pipelines of tagged transforms",
+    "text": "c13_shape_independent (any expression built from |, from_exec_iter and the pipeline setters yields its leaves in order), "
+            "c13_settings_of_composition, c13_wiring (command i writes pipe 2+i, command i+1 and nothing else reads it), c13_composition "
+            "(for all stage functions, inputs, lengths, stdin/stdout kinds, terminators: output = f(n-1)(...f0(input))), c13_nothing_else "
+            "(no stray inheritable pipe end at any start), c13_status_of_last (the returned status is the last command's, return is the "
+            "last action, all non-detached commands waited before). Real runs: 2..8 tagged transforms with distinct exit codes, all "
+            "split points of pipeline|pipeline, 0..120000 lines, stderr multiset, wait4 after return.",
+    "note": PIPE_NOTE,
+}
+CLAIMED["C14"] = {
+    "engine": "pipe", "design_ref": "DESIGN.md section 6, C14",
+    "technique": "Lean 4 proof (induction over the started prefix and the cleanup drops) + trace conformance with real children, "
+                 "a missing program at every position, and a hang watchdog",
+    "text": "c14_partial_start_cleans_up: for every length n, failing position k < n, terminator, stdin/stdout kind, detached flags -- "
+            "the error is returned once, exactly commands 0..k-1 were started, each non-detached one is waited for exactly once, at "
+            "every such wait the parent holds no pipe end of the attempt (except the shared-stderr reader in Pipeline::capture: "
+            "c14_capture_keeps_stderr_reader proves that exception is real -- recorded as a known finding), and nothing of the attempt is "
+            "held on return; c14_nothing_held_at_waits; c14_communicate_never_waits.",
+    "note": PIPE_NOTE + " Known finding: C14 capture-start-failure-keeps-stderr-reader-while-waiting.",
 }
 NOT_CLAIMED = {}
